@@ -1386,6 +1386,10 @@ package pub
 //@ params a
 //@ [C11] requires a != nil
 //@ modifies ASH, ASHP, props, A:Int, A:Iface, MD:String:Int, MV:String:Int
+// thin C05 clause: the union itself (30 loops over five slices of maps) is not under contract, only that the activity
+// leaves with all five addressing properties attached, so that what the loops append to them is kept
+//@ [C05] ensures the_activity_ends_with_all_five_addressing_properties: result == nil ==> props[a]["ActivityStreamsTo"] != nil && props[a]["ActivityStreamsBto"] != nil && props[a]["ActivityStreamsCc"] != nil && props[a]["ActivityStreamsBcc"] != nil && props[a]["ActivityStreamsAudience"] != nil
+//@ loop 6 [C05] invariant activity_has_all_five_addressing_properties: props[a]["ActivityStreamsTo"] != nil && props[a]["ActivityStreamsBto"] != nil && props[a]["ActivityStreamsCc"] != nil && props[a]["ActivityStreamsBcc"] != nil && props[a]["ActivityStreamsAudience"] != nil
 //@ skip C11 panic-freedom and termination of normalizeRecipients need quantified invariants over five slices of maps and type-distinctness of property values; not proved (bounded stand-in only)
 
 // the idx-th raw 'object' entry: the embedded JSON object itself (single form, idx 0), or the idx-th entry of the array form
